@@ -276,10 +276,10 @@ theorem loopG_eq (par : Bool) (d : DecCore) (buf : Bytes) (em : List Field) :
         | .needMore =>
           if par ∧ d.maxStrLen ≠ 0 ∧ buf.length > paranoiaBound d.maxStrLen then (d, em, .err .strLenParanoia)
           else (d, em, .saved buf)
-        | .err e d' => ({ d' with firstField := false }, em, .err e)
+        | .err e d' => (afterRepr buf d', em, .err e)
         | .ok d' rest e =>
           if rest.length < buf.length then
-            loopG par { d' with firstField := false } rest (em ++ optToList e)
+            loopG par (afterRepr buf d') rest (em ++ optToList e)
           else (d', em, .err .internal) := by
   rw [show loopG par d buf em = writeLoop par (buf.length + 1) d buf em from rfl, writeLoop]
   by_cases hnil : buf = []
@@ -294,6 +294,12 @@ theorem loopG_eq (par : Bool) (d : DecCore) (buf : Bytes) (em : List Field) :
       · simp only [hlt, ↓reduceIte]
         exact writeLoop_fuel par _ _ _ _ _ (by omega) (by omega)
       · simp only [hlt, ↓reduceIte]
+
+/-- `afterRepr` only looks at the first byte. -/
+theorem afterRepr_append (p q : Bytes) (d : DecCore) (hp : p ≠ []) : afterRepr (p ++ q) d = afterRepr p d := by
+  cases p with
+  | nil => exact absurd rfl hp
+  | cons b t => rfl
 
 /-- Ideal loop on `p ++ q`, given its result on `p`. -/
 theorem loopI_append (q : Bytes) : ∀ (n : Nat) (p : Bytes) (d : DecCore) (em : List Field), p.length ≤ n →
@@ -329,12 +335,12 @@ theorem loopI_append (q : Bytes) : ∀ (n : Nat) (p : Bytes) (d : DecCore) (em :
         rw [← h.1, ← h.2.1, ← h.2.2, loopG_eq false d (p ++ q)]
         simp only [hne, ↓reduceIte, Bool.false_eq_true, false_and]
       | err e d' =>
-        rw [parseRepr_err_append d p q d' e hpr]
+        rw [parseRepr_err_append d p q d' e hpr, afterRepr_append p q _ hnil]
         simp only [Prod.mk.injEq, reduceCtorEq, and_false, false_implies, implies_true, true_and]
         intro d1 em1 e1 h
         exact h
       | ok d' rest e =>
-        rw [parseRepr_ok_append d p q d' rest e hpr]
+        rw [parseRepr_ok_append d p q d' rest e hpr, afterRepr_append p q _ hnil]
         simp only [List.length_append, Nat.add_lt_add_iff_right]
         by_cases hlt : rest.length < p.length
         · simp only [hlt, ↓reduceIte]
